@@ -1505,7 +1505,9 @@ func (cs *ConsensusState) addVote(vote *types.Vote, peerKey string) (added bool,
 						types.FireEventUnlock(cs.evsw, cs.RoundStateEvent())
 					}
 				}
-				if cs.Round <= vote.Round && prevotes.HasTwoThirdsAny() {
+				// A node that has decided (commit step, waiting for the block) stays there: a later
+				// round would drop the parts of the decided block and nothing re-enters the commit.
+				if cs.Step < RoundStepCommit && cs.Round <= vote.Round && prevotes.HasTwoThirdsAny() {
 					// Round-skip over to PrevoteWait or goto Precommit.
 					cs.enterNewRound(height, vote.Round) // if the vote is ahead of us
 					if prevotes.HasTwoThirdsMajority() {
@@ -1526,7 +1528,9 @@ func (cs *ConsensusState) addVote(vote *types.Vote, peerKey string) (added bool,
 				blockID, ok := precommits.TwoThirdsMajority()
 				if ok {
 					if len(blockID.Hash) == 0 {
-						cs.enterNewRound(height, vote.Round+1)
+						if cs.Step < RoundStepCommit {
+							cs.enterNewRound(height, vote.Round+1)
+						}
 					} else {
 						cs.enterNewRound(height, vote.Round)
 						cs.enterPrecommit(height, vote.Round)
@@ -1540,7 +1544,7 @@ func (cs *ConsensusState) addVote(vote *types.Vote, peerKey string) (added bool,
 						}
 
 					}
-				} else if cs.Round <= vote.Round && precommits.HasTwoThirdsAny() {
+				} else if cs.Step < RoundStepCommit && cs.Round <= vote.Round && precommits.HasTwoThirdsAny() {
 					cs.enterNewRound(height, vote.Round)
 					cs.enterPrecommit(height, vote.Round)
 					cs.enterPrecommitWait(height, vote.Round)
